@@ -107,7 +107,8 @@ func RunC15(t *testing.T) {
 	col.AddRule("K histories (>=2 auctions of both types in every status, several allowed bidders / bids / instalments per auction, auctions in the middle of extended rounds, terminal auctions) with an export point drawn anywhere, followed by a generated suffix of operations and blocks. (1) AppModule.ExportGenesis -> JSON -> ValidateGenesis must return nil; (2) on a second branch every key of the module store is deleted and the JSON imported with InitGenesis: auctions, bids, allow-list, instalments, params, auction sequence, per-auction bid sequences and the last matched count of open batch auctions with rounds left must be equal; (3) the suffix runs on both branches in lock-step: same accept/reject per operation, same block results, same module dump and balances after every step. Non-trivial = the export point has >=2 records of one kind (allowed bidders, bids or instalments) for one auction.")
 	b := SharedBase()
 	w := DefaultWeights()
-	w.CreateBatch, w.Block, w.PerturbPct = 10, 26, 5
+	w.CreateBatch, w.Block, w.PerturbPct = 10, 26, 12
+	w.UpdateAllowed = 8 // incl. calls with an invalid amount whose error the calling module ignores
 	w.SnipePct = 40
 	w.CreateFixed, w.CreateBatch, w.PlaceBid = 4, 14, 40
 	w.Bidders = 4
